@@ -17,7 +17,7 @@
 (***************************************************************************)
 EXTENDS FJInt, TLC
 
-Pw(B, n) == IF B = 16 THEN IShl(IOne, 4 * n) ELSE IShl(IOne, n)       \* B^n
+Pw(B, n) == CASE B = 16 -> IShl(IOne, 4 * n) [] B = 2 -> IShl(IOne, n) [] B = 256 -> IShl(IOne, 8 * n)       \* B^n
 Low(B, x, n) == IMod(x, Pw(B, n))
 Put(B, x, n, y) == IAdd(ISub(x, Low(B, x, n)), IMod(y, Pw(B, n)))     \* replace the low n digits of x by y mod B^n
 Signed(B, x, n) == LET l == Low(B, x, n) IN IF ILe(IShr(Pw(B, n), 1), l) THEN ISub(l, Pw(B, n)) ELSE l
@@ -118,6 +118,114 @@ ApplyIO(st, s, B) ==
          [] s.k = "bit2hex"   -> RetD(SetV(st, 1, Put(16, V(1), (n + 3) \div 4, Low(2, V(2), n))), {})      \* hex[:(n+3)/4] = bit[:n]
          [] s.k = "hex2bit"   -> RetD(SetV(st, 1, Put(2, V(1), 4 * n, Low(16, V(2), n))), {})               \* bit[:4n] = hex[:n]
 
+
+
+\* ---- pointers, stack -------------------------------------------------------------------------------
+\* A pointer variable holds (abstractly) the INDEX of the cell it points to; cells live in a "cells" variable whose
+\* value is a base-256 number (cell i = byte i: the 8 data bits of the i-th op of a buffer).  Pointer arithmetic moves
+\* by whole cells.  Cell width cw: 4 = hex macros, 8 = byte macros, 1 = bit-namespace macros (s.m = 0 / 1 / 2).
+Cell(cells, i) == IF i < 0 THEN 0 ELSE Small(Low(256, IShr(cells, 8 * i), 1))      \* total: outside accesses are cut by the harness
+SetCell(cells, i, b) == IF i < 0 THEN cells ELSE IAdd(ISub(cells, IShl(NatI(Cell(cells, i)), 8 * i)), IShl(NatI(b), 8 * i))
+Idx(x) == IF x.neg THEN 0 - Small(x) ELSE Small(x)         \* small signed integer value of a pointer / index
+IntOf(k) == IF k < 0 THEN INeg(NatI(0 - k)) ELSE NatI(k)
+XorB(a, b) == Small(IBitwise("^", NatI(a), NatI(b)))
+CW(s) == IF s.m = 1 THEN 8 ELSE IF s.m = 2 THEN 1 ELSE 4
+P2(k) == Small(IShl(IOne, k))
+\* the value held by cells p .. p+k-1 (cw bits each, least significant first)
+RECURSIVE Gather(_, _, _, _, _)
+Gather(cells, p, k, cw, i) == IF i = k THEN IZero
+                              ELSE IAdd(IShl(NatI(Cell(cells, p + i) % P2(cw)), cw * i), Gather(cells, p, k, cw, i + 1))
+\* write (mode "set") or xor (mode "xor") the k cw-bit pieces of val into cells p..p+k-1; the other bits of a cell stay
+RECURSIVE Scatter(_, _, _, _, _, _, _)
+Scatter(cells, p, k, cw, val, mode, i) ==
+    IF i = k THEN cells
+    ELSE LET old == Cell(cells, p + i)
+             piece == Small(Low(2, IShr(val, cw * i), cw))
+             new == IF mode = "xor" THEN XorB(old, piece) ELSE (old - (old % P2(cw))) + piece
+         IN Scatter(SetCell(cells, p + i, new), p, k, cw, val, mode, i + 1)
+
+\* structured call trees.  items: <<"o", char>> print | <<"c", body>> stl.call | <<"f", body>> stl.fcall / fret
+\*   | <<"pc", var, body>> hex.push_byte var; stl.call f, 1  | <<"pp", var1, var2, body>> hex.push_byte var1; body; hex.pop_byte var2
+\* d = number of stack cells in use above the initial sp; a call clears the cell it stores the return address in
+\* and leaves it cleared; the stack pointer is back where it started when the tree is done.
+RECURSIVE Walk(_, _, _, _, _, _)
+Walk(t, items, i, d, sp0, stk) ==
+    IF i > Len(items) THEN t
+    ELSE LET it == items[i]
+             top == sp0 + d + 1
+             t1 == CASE it[1] = "o"  -> EmitChars(t, <<it[2]>>, 1)
+                     [] it[1] = "c"  -> Walk([t EXCEPT !.vals[stk] = SetCell(@, top, 0)], it[2], 1, d + 1, sp0, stk)
+                     [] it[1] = "f"  -> Walk(t, it[2], 1, d, sp0, stk)
+                     [] it[1] = "pc" -> Walk([t EXCEPT !.vals[stk] = SetCell(SetCell(@, top, Cell(t.vals[it[2]], 0)), top + 1, 0)],
+                                             it[3], 1, d + 2, sp0, stk)
+                     [] it[1] = "pp" -> LET u == Walk([t EXCEPT !.vals[stk] = SetCell(@, top, Cell(t.vals[it[2]], 0))], it[4], 1, d + 1, sp0, stk)
+                                        IN [u EXCEPT !.vals[it[3]] = Put(16, @, 2, NatI(Cell(u.vals[stk], top)))]
+         IN Walk(t1, items, i + 1, d, sp0, stk)
+RECURSIVE Rep(_, _)
+Rep(c, k) == IF k = 0 THEN <<>> ELSE <<c>> \o Rep(c, k - 1)
+RECURSIVE ZeroCells(_, _, _)
+ZeroCells(cells, from, k) == IF k = 0 THEN cells ELSE ZeroCells(SetCell(cells, from, 0), from + 1, k - 1)
+
+ApplyPtr(st, s, B) ==
+    LET V(i) == st.vals[s.v[i]]
+        n == s.n
+        cw == CW(s)
+        DB == IF cw = 1 THEN 2 ELSE 16                 \* digit base of the data variable
+        dn(k) == IF cw = 8 THEN 2 * k ELSE k           \* digits of the data variable that k cells fill
+        SetV(t, i, val) == [t EXCEPT !.vals[s.v[i]] = val]
+        RetD(t) == [st |-> t, br |-> "ret", dontcare |-> {}]
+    IN CASE s.k = "ptr_add"   -> RetD(SetV(st, 1, IAdd(V(1), s.c)))                     \* ptr += c cells  (inc: c = 1, dec: c = -1, sub: c < 0)
+         [] s.k = "ptr_mov"   -> RetD(SetV(st, 1, V(2)))                                \* stl.get_sp dst
+         [] s.k = "ptr_index" -> RetD(SetV(st, 1, IAdd(V(2), Signed(16, V(3), s.n))))   \* dst = ptr + index (signed, n = w/4 digits)
+         [] s.k = "ptr_rd"    ->       \* v = <<d, p, cells>>;  n cells;  sh = 1: ptr++ afterwards
+                LET p == Idx(V(2))
+                    t == SetV(st, 1, Put(DB, V(1), dn(n), Gather(V(3), p, n, cw, 0)))
+                IN RetD(IF s.sh = 1 THEN [t EXCEPT !.vals[s.v[2]] = IAdd(V(2), IOne)] ELSE t)
+         [] s.k = "ptr_rd_nth" ->      \* v = <<d, p, idx, cells>>: d = *(p + idx)
+                LET p == Idx(V(2)) + Idx(Signed(16, V(3), s.n))
+                IN RetD(SetV(st, 1, Put(DB, V(1), dn(1), Gather(V(4), p, 1, cw, 0))))
+         [] s.k = "ptr_xor_from" ->    \* v = <<d, p, cells>>: d ^= *p
+                LET p == Idx(V(2))
+                IN RetD(SetV(st, 1, Put(DB, V(1), dn(1), IBitwise("^", Low(DB, V(1), dn(1)), Gather(V(3), p, 1, cw, 0)))))
+         [] s.k = "ptr_wr"    ->       \* v = <<p, src, cells>>; c: 0 = write, 1 = xor;  sh = 1: ptr++ afterwards
+                LET p == Idx(V(1))
+                    t == SetV(st, 3, Scatter(V(3), p, n, cw, V(2), IF IIsZero(s.c) THEN "set" ELSE "xor", 0))
+                IN RetD(IF s.sh = 1 THEN [t EXCEPT !.vals[s.v[1]] = IAdd(V(1), IOne)] ELSE t)
+         [] s.k = "ptr_wr_nth" ->      \* v = <<p, idx, src, cells>>
+                LET p == Idx(V(1)) + Idx(Signed(16, V(2), s.n))
+                IN RetD(SetV(st, 4, Scatter(V(4), p, 1, cw, V(3), "set", 0)))
+         [] s.k = "ptr_zero"  -> RetD(SetV(st, 2, SetCell(V(2), Idx(V(1)), 0)))          \* v = <<p, cells>>: *p = 0
+         [] s.k = "ptr_flip_data" ->   \* v = <<p, cells>>: flips the bits c of cell *p (ptr_flip_dbit / ptr_flip: c = 1; ptr_wflip: any c)
+                RetD(SetV(st, 2, SetCell(V(2), Idx(V(1)), XorB(Cell(V(2), Idx(V(1))), Small(s.c)))))
+         [] s.k = "ptr_jump"  -> [st |-> st, br |-> IF Idx(V(1)) \in 0..(Len(s.tgt) - 1) THEN s.tgt[Idx(V(1)) + 1] ELSE "wild", dontcare |-> {}]       \* the pointer holds the index of a code target
+         \* stack: v = <<x, sp, stack>>;  sp points to the last pushed cell
+         [] s.k = "push"      ->
+                LET sp == Idx(V(2)) + 1
+                IN RetD([st EXCEPT !.vals[s.v[2]] = IntOf(sp),
+                                   !.vals[s.v[3]] = Scatter(V(3), sp, 1, cw, V(1), "set", 0)])
+         [] s.k = "pop"       ->
+                LET sp == Idx(V(2))
+                IN RetD([st EXCEPT !.vals[s.v[2]] = IntOf(sp - 1),
+                                   !.vals[s.v[1]] = Put(16, V(1), dn(1), Gather(V(3), sp, 1, cw, 0))])
+         [] s.k = "push_n"    ->       \* hex.push n, x: n/2 bytes, then (n odd) the last hex
+                LET sp == Idx(V(2))  nb == n \div 2
+                    c1 == Scatter(V(3), sp + 1, nb, 8, V(1), "set", 0)
+                    c2 == IF n % 2 = 1 THEN Scatter(c1, sp + 1 + nb, 1, 4, IShr(V(1), 4 * (n - 1)), "set", 0) ELSE c1
+                IN RetD([st EXCEPT !.vals[s.v[2]] = IntOf(sp + (n + 1) \div 2), !.vals[s.v[3]] = c2])
+         [] s.k = "pop_n"     ->
+                LET m2 == (n + 1) \div 2  nb == n \div 2
+                    base == Idx(V(2)) - m2 + 1
+                    bytes == Gather(V(3), base, nb, 8, 0)
+                    last == IF n % 2 = 1 THEN IShl(NatI(Cell(V(3), base + nb) % 16), 4 * (n - 1)) ELSE IZero
+                IN RetD([st EXCEPT !.vals[s.v[2]] = IntOf(Idx(V(2)) - m2),
+                                   !.vals[s.v[1]] = Put(16, V(1), n, IAdd(bytes, last))])
+         [] s.k = "calls"     ->       \* v = <<sp, stack, data variables...>>: a call tree; functions print and return in order
+                RetD(Walk(st, s.tree, 1, 0, Idx(V(1)), s.v[2]))
+         [] s.k = "recurse"   ->       \* v = <<cnt, sp, stack>>: f() { if (cnt == 0) return; cnt--; print 'd'; f(); print 'u' }  called once
+                LET k == Small(Low(16, V(1), 1))
+                    t == [st EXCEPT !.vals[s.v[1]] = Put(16, V(1), 1, IZero),
+                                    !.vals[s.v[3]] = ZeroCells(V(3), Idx(V(2)) + 1, k + 1)]
+                IN RetD(EmitChars(t, Rep(100, k) \o Rep(117, k), 1))
 
 ApplyCore(st, s, B) ==
     LET V(i) == st.vals[s.v[i]]
@@ -228,6 +336,9 @@ ApplyCore(st, s, B) ==
                                    !.vals[s.v[2]] = Put(B, V(2), n, IMod(L(2), NatI(10)))], br |-> "ret"]
 IOKeys == {"in_hex", "in_bytes", "in_bit", "in_as_hex", "in_dec_until", "in_idec_until", "in_dec", "in_idec", "out_hex", "out_bytes",
            "out_bit", "print_digits", "print_bits", "print_uint", "print_int", "print_dec_uint", "print_dec_int", "bit2hex", "hex2bit"}
+PtrKeys == {"ptr_add", "ptr_index", "ptr_rd", "ptr_rd_nth", "ptr_xor_from", "ptr_wr", "ptr_wr_nth", "ptr_zero", "ptr_flip_data", "ptr_jump",
+            "push", "pop", "push_n", "pop_n", "calls", "recurse", "ptr_mov"}
 Apply(st, s, B) == IF s.k \in IOKeys THEN ApplyIO(st, s, B)
+                   ELSE IF s.k \in PtrKeys THEN ApplyPtr(st, s, B)
                    ELSE LET r == ApplyCore(st, s, B) IN [st |-> r.st, br |-> r.br, dontcare |-> {}]
 =============================================================================
